@@ -238,6 +238,11 @@ def builder_setters(cx, chk, cfg, F, rule, only=None):
                         ok = False
                         chk.violation(rule, "%s|%s" % (f["q"], fld), "%s rebuilds the builder with field `%s` taken from `self.%s`: the configured %s is silently replaced" % (f["q"], fld, src, fld),
                                       f["span"]["file"], f["span"]["lo"], f["q"], None, cfg)
+                    elif src is None and f["name"].startswith("set_") and not any(t_[0] == "param" and t_[1] >= 2 for t_ in subterms(v)) \
+                            and not (isinstance(v, tuple) and v[0] == "agg" and v[1] == "adt" and str(v[2][0]).endswith("PhantomData")):
+                        ok = False
+                        chk.violation(rule, "%s|%s|reset" % (f["q"], fld), "%s rebuilds the builder with field `%s` set to %s, which is neither the old builder's `%s` nor the setter's argument: an earlier configuration of %s is silently discarded" % (
+                            f["q"], fld, fmt_val(v)[:50], fld, fld), f["span"]["file"], f["span"]["lo"], f["q"], None, cfg)
                 for e in p.events:
                     if e["ev"] == "store" and e["loc"][0] == "H" and isinstance(e["loc"][1], tuple) and e["loc"][1][0] == "param" and e["loc"][1][1] == 1 and e["loc"][2]:
                         src = _self_field(e["val"])
